@@ -18,6 +18,7 @@ import (
 	"sort"
 	"strconv"
 	"strings"
+	"time"
 
 	"github.com/prometheus/common/promslog"
 
@@ -307,6 +308,16 @@ func main() {
 	}
 
 	runCase := func(idx int, cs caseSpec) {
+		// watchdog: a writer, Reader or LiveReader that loops forever is a finding, not a stuck run
+		wd := time.AfterFunc(2*time.Minute, func() {
+			meta.GoViol = append(meta.GoViol, gallina.GoViolation{ID: fmt.Sprintf("hang-%d", idx), Shape: "hang",
+				What: fmt.Sprintf("case index %d (compr=%s pps=%d corpus=%q seed=%d) did not finish within 2 minutes: WL.Log, Reader.Next or LiveReader.Next does not terminate", idx, cs.compr, cs.pps, cs.corpus, f.Seed)})
+			cf.Flush()
+			meta.Write(f.Out)
+			os.RemoveAll(scratch)
+			os.Exit(0)
+		})
+		defer wd.Stop()
 		r := gen.Fork(f.Seed, idx)
 		dir := filepath.Join(scratch, fmt.Sprintf("c%d", idx))
 		w, err := wlog.NewSize(nil, nil, dir, cs.pps*P, cs.compr)
@@ -684,7 +695,7 @@ func main() {
 	idx++
 
 	// ---- generated logs
-	n := f.Count(45, 1200)
+	n := f.Count(45, 700)
 	for i := 0; i < n; i++ {
 		r := gen.Fork(f.Seed, 1000000+i)
 		cs := caseSpec{
